@@ -221,11 +221,13 @@ the builder of `fields` (any length, zero-row and repeated builds included): whe
 result per `build`, and the arrays of build `k` decode (`Spec.decodeAll`: the Arrow reading rules, slot by slot), column
 by column, to exactly the documented rows `interpRow ext fields` of batch `k` — the records added since build `k-1`, in
 order, however they were added.  (A 0-row build decodes to empty columns: `DecodesTo.empty`.)
-Hypotheses: exactly those of `C01.C01_build_decode` (`SchemaOKF`, `coveredF`, `Safe`, `noRaw` records). -/
+Hypotheses: exactly those of `C01.C01_build_decode` (`SchemaOKF`, `coveredF`, `Safe`; records whose raw call streams
+alternate, `structStreamsAlternate`; the sentinel bound `narrowRoot` when some record contains a raw stream). -/
 theorem C10_histories (ext : Ext) (fields : List Field) (r0 : B) (h0 : newRoot fields = .ok r0)
     (hschema : ∀ f ∈ fields, Lemmas.C03.SchemaOKF f)
     (hcov : fields.all Build.coveredF = true) (hsafe : Safe r0)
-    (ops : List Op) (hraw : OpsOK (fun x => noRaw x = true) ops)
+    (ops : List Op) (hraw : OpsOK (fun x => structStreamsAlternate x = true) ops)
+    (hnar : OpsOK (fun x => noRaw x = true) ops ∨ narrowRoot fields = true)
     (outs : List (B × List Arr)) (fin : B) (h : run ext r0 ops = .ok (outs, fin)) :
     outs.length = builds ops ∧ (batchesFrom [] ops).length = builds ops ∧
     ∀ (k : Nat) (h1 : k < outs.length) (h2 : k < (batchesFrom [] ops).length),
@@ -235,10 +237,12 @@ theorem C10_histories (ext : Ext) (fields : List Field) (r0 : B) (h0 : newRoot f
   refine ⟨by rw [hl, batchesFrom_length], batchesFrom_length ops [], ?_⟩
   intro k h1 h2
   obtain ⟨_, hm⟩ := hg k h1 h2
-  have hrows : ∀ x ∈ (batchesFrom [] ops)[k], noRaw x = true :=
-    mem_batchesFrom (fun x => noRaw x = true) ops [] (by simp) hraw _ (List.getElem_mem h2)
+  have hrows : ∀ x ∈ (batchesFrom [] ops)[k], structStreamsAlternate x = true :=
+    mem_batchesFrom (fun x => structStreamsAlternate x = true) ops [] (by simp) hraw _ (List.getElem_mem h2)
+  have hnar' : (∀ x ∈ (batchesFrom [] ops)[k], noRaw x = true) ∨ narrowRoot fields = true :=
+    hnar.imp (fun hno => mem_batchesFrom (fun x => noRaw x = true) ops [] (by simp) hno _ (List.getElem_mem h2)) id
   exact C01.C01_build_decode ext fields _ _ hschema hcov
-    (fun root0 hr => by rw [h0] at hr; cases hr; exact hsafe) hrows hm
+    (fun root0 hr => by rw [h0] at hr; cases hr; exact hsafe) hrows hnar' hm
 
 /-- **every build returns well-formed arrays of its batch's length** (C03 along histories): the arrays of build `k` are
 well-formed Arrow arrays of the declared fields (`Spec.WF`), one per field, each of exactly `(batch k).length` rows.
@@ -433,7 +437,8 @@ example : ∀ outs fin, run {} exRoot0 exOps = .ok (outs, fin) → outs.length =
   intro outs fin h
   have := C10_histories {} exFields exRoot0 exNew
     (by simp [exFields, Lemmas.C03.SchemaOKF, Lemmas.C03.SchemaOK])
-    (by decide) (by simp [exRoot0, Safe, SafeL, B.isDict]) exOps (by unfold OpsOK; decide) outs fin h
+    (by decide) (by simp [exRoot0, Safe, SafeL, B.isDict]) exOps (by unfold OpsOK; decide)
+    (Or.inl (by unfold OpsOK; decide)) outs fin h
   exact ⟨this.1, this.2.2⟩
 
 /-- what the three builds of the example decode to: batch 0 has the dictionary values x, y, x (keys 0, 1, 0), the empty
